@@ -191,8 +191,13 @@ impl MetricsCollector {
             if let Some(counter) = metric.as_any().downcast_ref::<CounterMetric>() {
                 // We can't mutate through the trait object, so we need to replace it
                 let new_count = counter.count + value;
-                drop(inner);
-                self.set_counter(name, new_count);
+                inner.metrics.insert(
+                    name.to_string(),
+                    Box::new(CounterMetric {
+                        name: name.to_string(),
+                        count: new_count,
+                    }),
+                );
             }
         } else {
             // Create a new counter
